@@ -7,9 +7,10 @@ import (
 
 	"github.com/oasisprotocol/curve25519-voi/internal/strobe"
 	"github.com/oasisprotocol/curve25519-voi/zzverif/mon"
+	"github.com/oasisprotocol/curve25519-voi/zzverif/workload"
 )
 
-func graftWork(rc *recorder, rng *rand.Rand, scale int) {
+func graftWork(rc workload.Sink, rng *rand.Rand, scale int) {
 	for i := 0; i < 200*scale; i++ {
 		var st [200]byte
 		switch {
@@ -20,6 +21,10 @@ func graftWork(rc *recorder, rng *rand.Rand, scale int) {
 			copy(st[:], mon.Bytes(rng, 200))
 		}
 		ok := strobe.VerifKeccakF1600Bytes(&st)
-		rc.out("strobe.keccakF1600", st[:], bb(ok))
+		okb := []byte{0}
+		if ok {
+			okb[0] = 1
+		}
+		rc.Out("strobe.keccakF1600", st[:], okb)
 	}
 }
